@@ -19,7 +19,7 @@ ASSUMPTIONS = [
 ]
 BOUNDS = {
     "quick": "<= 5 outstanding requests of different kinds (call, call with progress+details, acknowledged publish, subscribe, register, unsubscribe, unregister) x 2 router messages, each of 10 kinds with a free request id (0..2^53), error request-type from all 6 kinds, 5 payload shapes; request construction with option objects (free timeout / concurrency integers); IdGenerator one inductive step from an arbitrary state",
-    "thorough": "3 router messages, duplicated replies, 7 outstanding requests",
+    "thorough": "as quick plus 7 outstanding requests x 2 router messages, and 3 router messages (all 10 kinds each, third message with 2 payload shapes) for the two 4-request sets",
 }
 EXPECT_COVERS = ["complete:ok", "complete:err", "progress", "unknown-id:ProtocolError", "wrong-type:ProtocolError", "noise:event", "idgen:wrap", "idgen:step", "req:faithful", "send-fails"]
 BUDGET = {"quick": dict(wall_s=300, max_paths=30000, diff_samples=4), "thorough": dict(wall_s=2400, max_paths=400000)}
@@ -27,6 +27,7 @@ BUDGET = {"quick": dict(wall_s=300, max_paths=30000, diff_samples=4), "thorough"
 KINDS = ["call", "callp", "publish", "subscribe", "register", "unsubscribe", "unregister"]
 RTYPES = ["result", "result-progress", "published", "subscribed", "unsubscribed", "registered", "unregistered", "error", "event", "invocation"]
 SHAPES = ["none", "args1", "args2", "kwargs", "args+kwargs"]
+SHAPES_SHORT = ["none", "args+kwargs"]
 
 
 def _payload(shape):
@@ -60,7 +61,7 @@ def _same_result(got, exp):
     return isinstance(got, CallResult) and tuple(got.results) == exp[1] and dict(got.kwresults) == exp[2]
 
 
-def history(sx, kinds, L, details):
+def history(sx, kinds, L, details, first=None):
     from autobahn.wamp import message, types
     from autobahn.wamp.exception import ProtocolError, ApplicationError
     clock, trace, s, t = wamplib.joined_session(sx)
@@ -114,12 +115,16 @@ def history(sx, kinds, L, details):
     ACCEPTS = {"result": ("call", "callp"), "result-progress": ("call", "callp"), "published": ("publish",), "subscribed": ("subscribe",),
                "unsubscribed": ("unsubscribe",), "registered": ("register",), "unregistered": ("unregister",)}
     for step in range(L):
-        rt = RTYPES[sx.choice("rtype%d" % step, len(RTYPES))]
+        if step == 0 and first is not None:
+            rt = RTYPES[first]            # thorough tier: the first router message kind is a unit parameter (work split)
+        else:
+            rt = RTYPES[sx.choice("rtype%d" % step, len(RTYPES))]
         rid = sx.int("rid%d" % step, 0, 2 ** 53)
         shape = "none"
         etype = None
         if rt in ("result", "result-progress", "error"):
-            shape = SHAPES[sx.choice("shape%d" % step, len(SHAPES))]
+            shapes = SHAPES if (L < 3 or step < 2) else SHAPES_SHORT
+            shape = shapes[sx.choice("shape%d" % step, len(shapes))]
         args, kwargs = _payload(shape)
         if rt == "result":
             m = message.Result(rid, args=args, kwargs=kwargs)
@@ -379,9 +384,13 @@ def units(tier):
             ["subscribe", "subscribe", "call"]]
     if not q:
         sets.append(KINDS)
-    for ks in sets:
+    for si, ks in enumerate(sets):
         for details in (False, True):
-            U.append(("hist/%s/%s" % ("+".join(ks), "details" if details else "-"), "history", dict(kinds=ks, L=2 if q else 3, details=details), dict(weight=5)))
+            U.append(("hist/%s/%s" % ("+".join(ks), "details" if details else "-"), "history", dict(kinds=ks, L=2, details=details), dict(weight=5)))
+            if not q and si < 2:
+                for first in range(len(RTYPES)):
+                    U.append(("hist3/%s/%s/first=%s" % ("+".join(ks), "details" if details else "-", RTYPES[first]), "history",
+                              dict(kinds=ks, L=3, details=details, first=first), dict(weight=9)))
     for w in ("call", "call-noopts", "publish", "publish-unack", "subscribe", "register"):
         U.append(("faithful/" + w, "faithful", dict(which=w)))
     for k in ("call", "publish"):
